@@ -1,12 +1,22 @@
 #!/bin/sh
 # lower.sh <kernel.cpp> <out.ll> [extra clang flags]: real pika sources -> LLVM IR
+# VERIF_NOINLINE="<regex> <regex> ..." (on mangled names): those functions are kept out of line (two-stage lowering: clang front end,
+# 'noinline' added to the matching definitions, then the same -O1 pipeline through opt) so that ll2c -cut can replace them.
 set -e
 K="$1"; O="$2"; shift 2
 INC=""
 for d in /repo/libs/pika/*/include; do INC="$INC -I$d"; done
 CFG=/repo/_build; [ -d /repo/_build/libs/pika/config/include ] || CFG=/verif/.cfg
 for d in $CFG/libs/pika/*/include; do INC="$INC -I$d"; done
-exec clang++-14 -std=c++20 -O1 -fno-vectorize -fno-slp-vectorize -fno-unroll-loops \
-  -fsanitize=unreachable -fsanitize-trap=unreachable -Wno-everything -mllvm -inline-threshold=${VERIF_INLINE:-225} \
-  ${VERIF_SHIM:+-I$VERIF_SHIM} -I/verif/shim -I/verif/rt -I/verif/kernels $INC -I$CFG -DPIKA_DEBUG \
-  "$@" -S -emit-llvm "$K" -o "$O"
+FLAGS="-std=c++20 -O1 -fno-vectorize -fno-slp-vectorize -fno-unroll-loops -fsanitize=unreachable -fsanitize-trap=unreachable -Wno-everything \
+  ${VERIF_SHIM:+-I$VERIF_SHIM} -I/verif/shim -I/verif/rt -I/verif/kernels $INC -I$CFG -DPIKA_DEBUG"
+if [ -z "$VERIF_NOINLINE" ]; then
+  exec clang++-14 $FLAGS -mllvm -inline-threshold=${VERIF_INLINE:-225} "$@" -S -emit-llvm "$K" -o "$O"
+fi
+clang++-14 $FLAGS -Xclang -disable-llvm-passes "$@" -S -emit-llvm "$K" -o "$O.pre.ll"
+for rx in $VERIF_NOINLINE; do
+  sed -i -E "s/^(define [^@]*@\"?($rx)\"?\(.*\) [^#]*)(#[0-9]+)/\1noinline \3/" "$O.pre.ll"
+done
+if ! grep -q "^define.* noinline #" "$O.pre.ll"; then echo "lower.sh: VERIF_NOINLINE matched no definition" >&2; exit 3; fi
+opt-14 -passes='default<O1>' -inline-threshold=${VERIF_INLINE:-225} -S "$O.pre.ll" -o "$O"
+rm -f "$O.pre.ll"
